@@ -61,6 +61,26 @@ func c08Run(c *fw.Ctx) {
 		// directed histories beyond the quick depth: a mailbox filled to its cap, a message that is
 		// NOT the oldest removed, one delivery, then every operation twice over - the cap must go on
 		// evicting the oldest
+		if spec.Cap >= 1 && spec.Backend == "file" && c.Shard == 0 {
+			// a full mailbox, a delivery whose eviction cannot commit its index at the first attempt,
+			// then every operation
+			fault := sop{Kind: "add", MB: 0, Body: 0, IdxFault: true}
+			ops := append(append([]sop{}, c08Ops...), fault)
+			var prefix []int
+			for i := 0; i < spec.Cap; i++ {
+				prefix = append(prefix, 0)
+			}
+			prefix = append(prefix, len(ops)-1)
+			for x := range c08Ops {
+				seq := append(append([]int{}, prefix...), x)
+				if !c.Begin(func() any { return descStoreSeq(spec, ops, seq) }) {
+					continue
+				}
+				if _, _, nt := runStoreSeqFrom(c, spec, ops, seq, len(prefix)-1); nt {
+					c.Nontrivial(1)
+				}
+			}
+		}
 		if spec.Cap >= 2 && c.Shard == 0 {
 			find := func(want string) int {
 				for i, o := range c08Ops {
@@ -100,7 +120,8 @@ func c08Replay(c *fw.Ctx, raw json.RawMessage) {
 	if err := json.Unmarshal(raw, &cas); err != nil {
 		c.T.Fatalf("VERIF-INFRA bad case: %v", err)
 	}
-	runStoreSeq(c, cas.Spec, c08Ops, cas.Seq)
+	// (the directed histories use one more op, appended to the alphabet: same indices otherwise)
+	runStoreSeq(c, cas.Spec, append(append([]sop{}, c08Ops...), sop{Kind: "add", MB: 0, Body: 0, IdxFault: true}), cas.Seq)
 }
 
 func init() {
